@@ -11,17 +11,25 @@
 (*  - the EDGE WALKER as a state machine (pixman_edge_t): EdgeInit,        *)
 (*    EdgeStep(n) for any n, EdgeStepSmall / EdgeStepBig.  An edge holds   *)
 (*    x (the abscissa on the current sample row, 16.16) and an error term  *)
-(*    e with -dy <= e <= 0; mc/TrapMC.tla proves what x MEANS (lemma       *)
-(*    WalkerMeaning): for an edge running right (dx >= 0)                  *)
-(*    x = ceil(X) - 1, for an edge running left x = floor(X), X the exact  *)
-(*    intersection of the line with the sample row, except while no        *)
-(*    remainder has been accumulated (x = X);                              *)
+(*    e with -dy <= e <= 0; mc/TrapMC.tla proves that e is the exact       *)
+(*    rational residue (lemma Residual) and hence what x MEANS (lemma      *)
+(*    WalkerMeaning), X being the exact intersection of the line with the  *)
+(*    sample row:  x = ceil(X) - 1 for an edge running right with a        *)
+(*    fractional slope, x = floor(X) for an edge running left, x = X for   *)
+(*    a whole-number slope (vertical edges in particular);                 *)
 (*  - Coverage: a trapezoid adds to pixel (p, q) the number of grid        *)
 (*    samples (s, y) of that pixel with t <= y <= b and lx(y) < s <= rx(y) *)
-(*    where t = SampleCeilY(top), b = SampleFloorY(bottom) and lx, rx are  *)
-(*    the walker abscissae of the left and right edge.  With the meaning   *)
-(*    of x above, lx < s <= rx  <=>  XL <= s < XR: top and left inclusive, *)
-(*    bottom and right exclusive.  Adding saturates at 2^n - 1.            *)
+(*    where t = SampleCeilY(top), b = SampleFloorY(bottom) (top inclusive, *)
+(*    bottom exclusive) and lx, rx are the walker abscissae of the left    *)
+(*    and right edge.  With the meaning of x above, lx < s <= rx is        *)
+(*    XL <= s < XR for every sample that does not lie exactly on an edge   *)
+(*    line (lemma Geometry of mc/TrapTileMC.tla: strictly-inside count <=  *)
+(*    Coverage <= inside-or-on-an-edge count).  A sample exactly ON an     *)
+(*    edge line is attributed by the walker: to the right-hand side of an  *)
+(*    edge running right with a fractional slope (left inclusive, right    *)
+(*    exclusive), to the left-hand side of every other edge; either way    *)
+(*    consistently for both trapezoids sharing the edge, which is what the *)
+(*    tiling clauses of the property need.  Adding saturates at 2^n - 1.   *)
 (*  - the derived operations: RasterizeTrapezoid, AddTrapezoids, AddTraps, *)
 (*    AddTriangles (two-trapezoid decomposition).                          *)
 (*                                                                         *)
@@ -34,11 +42,11 @@
 (* to a sampled row or by one grid step, stays inside the 32-bit range     *)
 (* (pixman wraps there; such edges are excluded by the property's domain). *)
 (*                                                                         *)
-(* QUIRKS.  The walker of the specification is PATH INDEPENDENT: the state  *)
+(* QUIRKS.  The walker of the specification is PATH INDEPENDENT: the state *)
 (* of an edge on a row does not depend on the row the walk began on (lemma *)
 (* PathIndependent of mc/TrapMC.tla), which is what makes separately       *)
-(* rasterised abutting trapezoids tile (mc/TrapTileMC.tla).  The unrepaired *)
-(* pixman tree deviates in four places, each selectable by a field of the *)
+(* rasterised abutting trapezoids tile (mc/TrapTileMC.tla).  The unrepaired*)
+(* pixman tree deviated in four places, each selectable by a field of the  *)
 (* quirk record q that the *Q operators take (all FALSE = specification):  *)
 (*   q.stale   pixman_edge_step does not store the new error term when no  *)
 (*             correction of x is needed (finding C12-stale-error-term);   *)
